@@ -76,8 +76,19 @@ def run_check(prop, tier, seed):
     pa = None
     if broken_proof is None:
         pa = C.print_assumptions(prop)
+        # further statement files of this property (e.g. cross-package composition theorems): same rules
+        for extra_name in getattr(mod, 'EXTRA_PROPERTIES', []):
+            if pa['rc']:
+                break
+            px = C.print_assumptions(extra_name)
+            if px['rc']:
+                pa = dict(pa, rc=px['rc'], raw=px['raw'])
+                break
+            pa = {'rc': 0, 'theorems': pa['theorems'] + px['theorems'], 'printed': pa['printed'] + px['printed'],
+                  'axioms': sorted(set(pa['axioms']) | set(px['axioms'])), 'unknown': pa['unknown'] + px['unknown'],
+                  'closed': pa['closed'] + px['closed'], 'raw': pa['raw'] + px['raw']}
         if pa['rc']:
-            broken_proof = {'stage': 'coq', 'file': f'theories/Properties/{prop}.v', 'error': pa['raw'][-1500:]}
+            broken_proof = {'stage': 'coq', 'file': f'theories/Properties/{prop}.v (or an EXTRA_PROPERTIES file)', 'error': pa['raw'][-1500:]}
         else:
             unknown = list(pa['unknown'])
             if unknown or len(pa['printed']) < len(pa['theorems']) or not pa['theorems']:
@@ -93,7 +104,8 @@ def run_check(prop, tier, seed):
     cov['trusted_base'] = list(getattr(mod, 'TRUSTED', [])) + [f'axiom: {a}' for a in (pa['axioms'] if pa else [])]
 
     if tier == 'thorough' and broken_proof is None and os.environ.get('VERIF_NO_COQCHK') != '1':
-        rc2, out2 = C.sh(f'timeout 1500 coqchk -silent -o -Q theories LV LV.Properties.{prop}', cwd=C.COQ, timeout=1560)
+        mods = ' '.join(f'LV.Properties.{n}' for n in [prop] + list(getattr(mod, 'EXTRA_PROPERTIES', [])))
+        rc2, out2 = C.sh(f'timeout 2400 coqchk -silent -o -Q theories LV {mods}', cwd=C.COQ, timeout=2460)
         cov['coqchk'] = 'ok' if rc2 == 0 else 'FAILED'
         cov['coqchk_tail'] = out2[-1200:]
         if rc2 != 0:
